@@ -103,6 +103,17 @@ def OPS(c):
         d = E.int('d', 0, 5)
         await c.step('time+d', time + d)
 
+    @op('after interrupted postponement')
+    async def _(c):
+        f = Flag()
+        await f.set()
+        async with until(f):          # already true: the interrupt strikes the postponement
+            await instant
+        await c.step('instant after an interrupted postponement', instant)
+        async with until(f):
+            await f.set()
+        await c.step('flag.set after an interrupted postponement', f.set())
+
     # ---- flags / conditions
     @op('await set flag')
     async def _(c):
